@@ -1,30 +1,40 @@
 #!/venv/bin/python
-"""Recompute caught_by / expected_rules of every /verif/seeded/<id>/meta.json against the current checks."""
-import glob, json, os, sys
+"""Recompute caught_by / expected_rules of every /verif/seeded/<id>/meta.json against the current checks (parallel)."""
+import glob, json, multiprocessing as mp, os, sys
 sys.path.insert(0, '/verif')
 from sa.history import world_with_patch
 from sa.loader import World
 from sa.run import ALL_IDS, run_property
 
-clean = World('/repo')
-base = {pid: {o.key for o in run_property(pid, clean).violations()} for pid in ALL_IDS}
-for meta_path in sorted(glob.glob('/verif/seeded/*/meta.json')):
+BASE = {}
+
+
+def one(meta_path):
     d = os.path.dirname(meta_path)
-    meta = json.load(open(meta_path))
     world = world_with_patch('/repo', f'{d}/patch.diff')
     caught, rules = [], {}
     for pid in ALL_IDS:
         try:
             ck = run_property(pid, world)
         except Exception as exc:  # noqa: BLE001
-            print(f'{os.path.basename(d)}: {pid} crashed: {exc}')
             continue
-        new = sorted({o.key for o in ck.violations()} - base[pid])
+        new = sorted({o.key for o in ck.violations()} - BASE[pid])
         if new:
             caught.append(pid)
             rules[pid] = sorted({k.split(' ')[0] for k in new})
-    old = (meta.get('caught_by'), meta.get('expected_rules'))
-    meta['caught_by'], meta['expected_rules'] = caught, rules
-    json.dump(meta, open(meta_path, 'w'), indent=1)
-    own = meta['property'] in caught
-    print(os.path.basename(d), 'own' if own else 'NOT-OWN', caught, '(changed)' if old != (caught, rules) else '')
+    return meta_path, caught, rules
+
+
+if __name__ == '__main__':
+    clean = World('/repo')
+    for pid in ALL_IDS:
+        BASE[pid] = {o.key for o in run_property(pid, clean).violations()}
+    metas = sorted(glob.glob('/verif/seeded/*/meta.json'))
+    with mp.get_context('fork').Pool(14) as pool:
+        for meta_path, caught, rules in pool.imap(one, metas):
+            meta = json.load(open(meta_path))
+            old = (meta.get('caught_by'), meta.get('expected_rules'))
+            meta['caught_by'], meta['expected_rules'] = caught, rules
+            json.dump(meta, open(meta_path, 'w'), indent=1)
+            own = meta['property'] in caught
+            print(os.path.basename(os.path.dirname(meta_path)), 'own' if own else 'NOT-OWN', caught, '(changed)' if old != (caught, rules) else '')
